@@ -13,8 +13,9 @@ def _assert_environment():
     import lsst.daf.relation as pkg
 
     here = os.path.realpath(pkg.__file__)
-    if not here.startswith("/repo/python/"):
-        print(f"HARNESS-ERROR: lsst.daf.relation imported from {here}, not /repo/python", file=sys.stderr)
+    root = os.path.realpath(os.environ.get("VERIF_REPO_OVERRIDE", "/repo")) + "/python/"
+    if not here.startswith(root):
+        print(f"HARNESS-ERROR: lsst.daf.relation imported from {here}, not {root}", file=sys.stderr)
         sys.exit(2)
 
 
